@@ -11,7 +11,8 @@ cp /repo/go.sum "$D/h/go.sum"
 cd "$D/h"
 for pkg in $(ls -d */ | tr -d /); do
   if ls $pkg/*_test.go >/dev/null 2>&1 && [ "$pkg" != "refimpl" ]; then
-    $GO test -c -tags verif -vet=off -o "$D/.build/$pkg.test" ./$pkg
+    # warming only: a package that does not build is reported by its own check, not here
+    $GO test -c -tags verif -vet=off -o "$D/.build/$pkg.test" ./$pkg || echo "warn: $pkg does not build yet"
   fi
 done
 echo setup ok
